@@ -45,7 +45,7 @@ def one(name, plist):
 
 def main():
     sel = sys.argv[1:]
-    names = sorted(n for n in os.listdir(os.path.join(VERIF, "seeded")) if os.path.isdir(os.path.join(VERIF, "seeded", n)))
+    names = sorted(n for n in os.listdir(os.path.join(VERIF, "seeded")) if os.path.isdir(os.path.join(VERIF, "seeded", n)) and not n.startswith("_"))
     if sel:
         names = [n for n in names if any(n.startswith(s) for s in sel)]
     plist = props()
